@@ -74,6 +74,32 @@ def local_expr(F, B, l, depth):
     ds = B.defs().get(l, [])
     if B.is_arg(l) and not ds:
         return ("arg", l)
+    if len(ds) == 2:
+        # loop-carried pointer: `cur = init; loop { ..; cur = cur.offset(1) }`
+        for step, init in ((ds[0], ds[1]), (ds[1], ds[0])):
+            st = _step_call(B, step)
+            if st is None:
+                continue
+            t, bb = st
+            a0 = operand_place(t["args"][0])
+            k = operand_const(t["args"][1])
+            if a0 is None or a0["p"] or k is None or "int" not in k:
+                continue
+            src = a0["l"]
+            sd = B.defs().get(src, [])
+            same = src == l or (len(sd) == 1 and sd[0][0] == "assign" and sd[0][3]["k"] == "use" and (operand_place(sd[0][3]["op"]) or {}).get("l") == l)
+            if not same:
+                continue
+            if init[0] == "assign" and init[3]["k"] == "use":
+                return ("induction", expr(F, B, init[3]["op"], depth + 1), k["int"], bb)
+            if init[0] == "call":
+                t2 = init[2]
+                c = callee_of(t2)
+                args = [expr(F, B, a, depth + 1) for a in t2["args"]]
+                if c in IDENTITY_CALLS and args:
+                    return ("induction", args[0], k["int"], bb)
+                name = (F.body(c) or {}).get("name") or t2.get("callee_name") or c
+                return ("induction", ("call", c, name, tuple(args), (), init[1], ()), k["int"], bb)
     if len(ds) != 1:
         return ("unknown", "local _%d has %d definitions" % (l, len(ds)))
     d = ds[0]
@@ -106,6 +132,20 @@ def local_expr(F, B, l, depth):
     if k == "discr":
         return ("discr", place_expr(F, B, rv["place"], depth + 1))
     return ("unknown", k)
+
+
+def _step_call(B, d):
+    """If definition d is `x = ptr.offset/add(k)` (directly or through one move), return (call term, bb)."""
+    steps = ("<*mut T>::offset", "<*mut T>::add", "<*const T>::offset", "<*const T>::add")
+    if d[0] == "call" and callee_of(d[2]) in steps and len(d[2]["args"]) == 2:
+        return d[2], d[1]
+    if d[0] == "assign" and d[3]["k"] == "use":
+        pl = operand_place(d[3]["op"])
+        if pl is not None and not pl["p"]:
+            sd = B.defs().get(pl["l"], [])
+            if len(sd) == 1 and sd[0][0] == "call" and callee_of(sd[0][2]) in steps and len(sd[0][2]["args"]) == 2:
+                return sd[0][2], sd[0][1]
+    return None
 
 
 def strip_casts(e):
@@ -179,4 +219,8 @@ def show(e, depth=0):
         return show(e[1], depth)  # references are transparent here
     if k == "tfield":
         return "%s.%d" % (show(e[1], depth + 1), e[2])
+    if k == "induction":
+        return "loop_ptr(%s, +%d)" % (show(e[1], depth + 1), e[2])
+    if k == "agg":
+        return "%s(%s)" % (e[3] or e[1], ", ".join(show(a, depth + 1) for a in e[4]))
     return str(e[:2])
